@@ -25,8 +25,11 @@ def source_hash(repo=None):
             continue
         h.update(f.encode()); h.update(open(f, 'rb').read())
     for f in sorted(glob.glob(os.path.join(HERE, '*.py'))):
-        if os.path.basename(f) in ('hist.py', 'histcheck.py', 'xsdspec.py', 'elem.py'):
+        if os.path.basename(f) in ('hist.py', 'xsdspec.py', 'elem.py'):
             h.update(open(f, 'rb').read())
+    import inspect
+    for fn in (eval_type, bounds, unique_arrangement, hstr, type_elements):      # the semantic part of this module (not the scheduling)
+        h.update(inspect.getsource(fn).encode())
     import verysimpletree.tree as T
     h.update(open(T.__file__, 'rb').read())
     return h.hexdigest()[:16]
@@ -274,12 +277,17 @@ def sweep(tier='quick', force=False):
         tasks.extend((t, n, tier, i, nsh) for i in range(nsh))
     # biggest alphabets first
     tasks.sort(key=lambda a: -len(xsdspec.alphabet(xsdspec.MODELS[a[0]])))
-    ctx = mp.get_context('fork')
+    from .par import run_tasks
     res = []
     t0 = time.time()
-    with ctx.Pool(processes=min(16, os.cpu_count() or 4), maxtasksperchild=1) as pool:
-        for r in pool.imap_unordered(eval_type, tasks, chunksize=1):
-            res.append(r)
+    hard = 1500 if tier == 'quick' else 7200
+    timed_out = []
+    for t, kind, val in run_tasks(eval_type, tasks, hard_timeout=hard):
+        if kind == 'ok':
+            res.append(val)
+        else:
+            # a shard that hangs or dies: the type is undecided in the bounded layer (reported by the property checks)
+            timed_out.append((t[0], kind, str(val)[:300]))
     merged = {}
     for r in res:
         m = merged.setdefault(r['tkey'], dict(tkey=r['tkey'], name=r['name'], alphabet=r['alphabet'], k_add=r['k_add'], histories=0,
@@ -291,7 +299,7 @@ def sweep(tier='quick', force=False):
         m['fails'].extend(r['fails'])
     for m in merged.values():
         m['fails'].sort()
-    out = dict(tier=tier, source_hash=key, wall_s=round(time.time() - t0, 1), types=sorted(merged.values(), key=lambda r: r['tkey']))
+    out = dict(tier=tier, source_hash=key, wall_s=round(time.time() - t0, 1), types=sorted(merged.values(), key=lambda r: r['tkey']), failed_shards=timed_out)
     tmp = path + f'.{os.getpid()}'
     with open(tmp, 'w') as f:
         json.dump(out, f)
